@@ -279,6 +279,7 @@ func main() {
 	}
 	legacyStream(r, run.Scale(60, 3000))
 	modeStream(r, run.Scale(1, 40))
+	plainStream(r, run.Scale(60, 5000))
 	n := run.Scale(600, 60000)
 	for i := 0; i < n; i++ {
 		runHistory(genHistory(r, 10))
